@@ -35,6 +35,10 @@ SEEDS = [
     ('html', [b'<!doctype html>', b'<P Id="a&amp;b">', b'x &lt; y', b'<script>', b"var a='b'", b'</script>', b'</P>']),
     ('html', [b'<style>', b'a{color:#ff0000}', b'</style>', b'<a href=" http://x/ "', b' onclick="f( )">', b'<!--c-->', b'<pre> </pre>']),
     ('css', [b'@media x{', b'a', b'{', b'color', b':', b'rgb(255,0,0)', b';', b'margin:0px 1.50em', b'}', b'}']),
+    # string tokens in every string-valued position (font, font-family, content, url(), attribute selector, @import; html attributes)
+    ('css', [b'@import ', b'"x.css"', b';a[b=', b"'c'", b']{font:12px ', b'"A B"', b',', b"'serif'", b';font-family:', b'"Arial"',
+             b';content:', b"'x'", b';background:url(', b'"x.png"', b')}']),
+    ('html', [b'<a href=', b'"http://x/"', b' title=', b"'t'", b" style='font:bold 12px/1.2 ", b'"A B"', b",serif'", b'>x</a>']),
     ('js', [b'var ', b'a', b'=', b"'x'", b'+', b'1.50', b';', b'if(a)', b'{b(/r/g)}', b'else ', b'c=`a${b}`']),
     ('json', [b'{', b'"a"', b':', b'[', b'1.50e+3', b',', b'true', b',', b'"\\u00e9"', b']', b'}']),
     ('svg', [b'<svg>', b'<path d="', b'M10 10', b'L20.0 20', b'a1 1 0 0110 10', b'z', b'"', b' fill="#ff0000"', b'/>', b'</svg>']),
@@ -91,6 +95,8 @@ KA_CAN_FAIL_HTML = re.compile(rb'\x00|<script|<svg|<math|[\s"\'/<]on[^\s=>]*\s*=
 # KB: the JS minifier needs time quadratic in the number of var statements of one scope (js/vars.go hoistVars; the 10000 cut-off
 #     only limits the length of a single declaration list).  Generators emit at most 3000 var statements per scope.
 KB_VAR = re.compile(rb'\bvar\b')
+# KD: the HTML minifier looks ahead over all following tokens for every white-space-only text token: "a" + " </b>" x N is quadratic
+KD_WS = re.compile(rb'>[ \t\r\n]+<')
 
 
 def json_ok(data):
@@ -115,6 +121,8 @@ def doc_tags(lang, data):
         tags.add('KA')
     if lang in ('js', 'html') and len(data) > 20000 and len(KB_VAR.findall(data)) > 3000:
         tags.add('KB')
+    if lang == 'html' and len(data) > 15000 and len(KD_WS.findall(data)) > 3000:
+        tags.add('KD')
     return tags
 
 
@@ -138,6 +146,32 @@ def kc_call(api, opts, prec):
 
 def excluded(api, tags):
     return [t for t in tags if (t != 'KA' or api == 'Bytes') and t not in LIFTED]
+
+
+SCHEME_LITERALS = [b'http', b'https', b'http:', b'https:', b'data:', b'javascript:', b'//', b'mailto:', b'data:text/plain;base64,', b'data:,',
+                   b'ftp:', b'file:', b'#', b'?']
+URL_ATTR_TEMPLATES = [b'<a href=%s>x</a>', b'<img src="%s">', b'<form action=" %s ">', b'<link href=\'%s\' rel=x>', b'<script src=%s></script>',
+                      b'<p onclick="%s">', b'<iframe src="%s"></iframe>', b'<a href="%s" id=b>']
+
+
+def url_prefix_values(quick, rnd):
+    """every prefix of every scheme literal, and every prefix plus one more character, in three letter cases, bare and with blanks"""
+    cases = (bytes.lower, bytes.upper, lambda b: bytes(c ^ 32 if i % 2 and 65 <= (c & ~32) <= 90 else c for i, c in enumerate(b)))
+    exact, more = [], []
+    for lit in SCHEME_LITERALS:
+        for k in range(1, len(lit) + 1):
+            for case in cases:
+                v = case(lit[:k])
+                if v not in exact:
+                    exact.append(v)
+    for lit in SCHEME_LITERALS:
+        for k in range(len(lit) + 1):
+            for extra in (b'x', b':', b'/', b's'):
+                for case in cases:
+                    v = case(lit[:k] + extra)
+                    if v not in exact and v not in more:
+                        more.append(v)
+    return exact + (more if not quick else vlib.sample(more, 80, rnd))      # the exact prefixes always, in every tier
 
 
 def render_seeds():
@@ -390,7 +424,7 @@ def run(ctx):
         pre, post = (NEST[lang][cidx - 1] if cidx else (b'', b''))
         if quick and depth >= 10000 and rnd.random() < 0.5:
             continue
-        if quick and lastop == 'inject' and len(SEEDS[seed - 1][1]) > 12 and rnd.random() < 0.75:
+        if quick and lastop == 'inject' and rnd.random() < (0.75 if len(SEEDS[seed - 1][1]) > 12 else 0.5):
             continue        # the long path document: its token and truncation mutants matter; a quarter of the byte injections
         full = (not quick and ops <= 1) or (quick and ops == 0)
         if not quick and ops == 2 and rnd.random() < 0.7:
@@ -449,6 +483,15 @@ def run(ctx):
             for tail in late[lang]:
                 for api in ('Bytes', 'String'):
                     cs.add(api, lang, opts=rnd.choice(OPTS[lang]), data=b + tail, origin='late-error')
+    # ---- URL-valued attributes whose value is a prefix (or prefix + one character) of a scheme literal the HTML minifier compares against
+    if not only_pinned:
+        nurl = 0
+        for v in url_prefix_values(quick, rnd):
+            for tmpl in URL_ATTR_TEMPLATES:
+                for api in (['Bytes'] if quick else ['Bytes', 'String', 'Minify']):
+                    if cs.add(api, 'html', opts='default' if rnd.random() < 0.7 else rnd.choice(OPTS['html']), data=tmpl % v, origin='urlprefix') is not None:
+                        nurl += 1
+        ctx.coverage['url_prefix_calls'] = nurl
     # ---- (E) nesting / repetition probes (stack depth, time and memory proportional to the input)
     depths = [10, 100, 1000, 10000] + ([] if quick else [100000])
     for lang, pre, body, post in ([] if only_pinned else PROBES + [(l, a, b'x' if l in ('html', 'xml') else b'1' if l in ('json', 'css', 'num') else b'a', z)
@@ -501,7 +544,15 @@ def run(ctx):
         for pos in pending:
             plan += [pos] * (3 if why[pos] == ['WithinBudget'] else 1)
         sub = [dict(cs.cases[pos], id=k) for k, pos in enumerate(plan)]
-        ev1 = run_shard(ctx, exe, sub, 'rerun')
+        # fresh processes, one call at a time in each: the calls rejected for the budget get a process of their own (their three runs
+        # one after the other), so that the expensive ones do not queue behind each other
+        groups = collections.defaultdict(list)
+        for k, pos in enumerate(plan):
+            groups[pos if why[pos] == ['WithinBudget'] else -1].append(sub[k])
+        with ThreadPoolExecutor(max_workers=min(8, len(groups))) as ex:
+            parts = list(ex.map(lambda a: run_shard(ctx, exe, a[1], 'rerun-%d' % a[0]), enumerate(groups.values())))
+        byid = {e['id']: e for part in parts for e in part}
+        ev1 = [byid[k] for k in range(len(sub))]
         a1, r1 = vlib.tlc_trace(ctx, 'C10Trace', 'C10Trace.cfg', [to_line(e) for e in ev1])
         w1 = collections.defaultdict(list)
         for k, w in r1:
